@@ -39,7 +39,7 @@ structure Flags where
   carry : Bool := false
 deriving DecidableEq, Repr, Inhabited
 
-inductive Err | valueError | typeError | overflowError | notImplemented | zeroDivision | indexError | assertion | unbound
+inductive Err | valueError | typeError | overflowError | notImplemented | zeroDivision | indexError | assertion | unbound | outOfFuel
 deriving DecidableEq, Repr, Inhabited
 
 namespace RF
